@@ -1,6 +1,7 @@
 import Model.Topic
 import Model.TopicSpec
 import Model.CommitLog
+import Model.CommitLogSpec
 import Model.Router.Types
 import Model.Router.Step
 import Model.Router.Monitors
